@@ -16,7 +16,8 @@ RULE = ('cases = (a) trajectories (1-3 atoms, 2-12 frames) with coordinates on t
         '(b) face-adjacent float stream (0, -0.0, +-2^-k, -1e-17, 1-2^-53, k+-ulp, denormals ...) compared bit for bit with the PrimFloat twin of np.mod; '
         'non-trivial = at least one wrap and one coordinate outside [0,1)')
 TRUSTED = ['numpy add/sub/mod/around/cumsum follow IEEE-754 binary64 (exact on the dyadic grid; bit-exact tie for np.mod)',
-           'primitive floats of the Coq kernel (PrimFloat) for the executable twin']
+           'primitive floats of the Coq kernel (PrimFloat) for the executable twin',
+           'translator unit trajcore (AST of Trajectory.to_positions and the properties around it -> Gen/TrajCore.v); pymatgen Trajectory.to_positions/to_displacements modelled']
 ASSUMPTIONS = ['shift invariance is claimed away from exact half-cell steps (both +-1/2 are minimum images there)']
 KINDS = ['cubic', 'ortho', 'mono', 'hexlike', 'hex', 'tri', 'tri_full']
 
@@ -43,6 +44,11 @@ def fl3(x):
 SPECIAL = [0.0, -0.0, 1.0, -1.0, 2.0, -1e-17, 1e-17, -2.0**-60, 2.0**-60, -2.0**-53, -2.0**-54, -2.0**-55, 1 - 2.0**-53, -(1 - 2.0**-53),
            1 + 2.0**-52, -(1 + 2.0**-52), 0.5, -0.5, 5e-324, -5e-324, 2.2250738585072014e-308, -2.2250738585072014e-308,
            3 - 2.0**-51, -3 + 2.0**-51, 123456.75, -123456.75, 1e15 + 0.5, -1e15 - 0.5, 0.1, -0.1, 0.9999999999999999, -0.9999999999999999]
+
+
+def pre_build():
+    import translate
+    return [translate.gen_traj_core()]
 
 
 def gen_cases(rng, tier):
